@@ -517,7 +517,7 @@ def run(ctx: Ctx) -> Outcome:
                      'by_variant': {k: sum(1 for c in zero if c['variant'] == k) for k in sorted({c['variant'] for c in zero})}},
         'argmin': {'calls': len(arg), 'with_distinct_candidate_costs': sum(1 for c in arg if c['spread'] > 1000)},
         'algebra_model_checking': laws_cov,
-        'samples': [{k: v for k, v in c.items() if k not in ('before', 'after')} for c in (cases[1], cases[len(zero) // 2], cases[-1])],
+        'samples': [{k: v for k, v in c.items() if k not in ('before', 'after')} for c in [cases[i] for i in sorted({min(1, len(cases) - 1), len(zero) // 2 if len(zero) // 2 < len(cases) else 0, len(cases) - 1})]],
         'checker_cmd': 'tlc -config specs/exact/CostZero.cfg specs/exact/CostZero.tla (batch, TRACE_FILE=cases.json); '
                        'tlc -coverage 1 -config specs/exact/MonoLawsCost.cfg specs/exact/MonoLaws.tla',
         'trusted_base': ['TLC', 'harness/exact.py (discretiser, own contraction for targets)', 'harness/usergates.py', 'harness/checks/c19.py'],
